@@ -810,12 +810,143 @@ def _self_fields(func_node, recv='self'):
     return out
 
 
+def _eq_hash_semantic(ctx, mdl, cls):
+    """eq / ne / hash of a segment class decided by probing: two objects that differ in exactly one constructor field compare
+    unequal (and != agrees), identical ones compare equal and hash alike, and the hash does not move when anything that __eq__
+    does not compare is changed.  -> dict of verdicts keyed like the syntactic rule, or None when the probe leaves the fragment"""
+    import hashlib
+    init = cls.method('__init__')
+    params = init.params()[1:]
+    defining = []
+    for n in ast.walk(init.node):
+        if isinstance(n, ast.Assign) and self_attr(n.targets[0]):
+            used = {x.id for x in ast.walk(n.value) if isinstance(x, ast.Name)}
+            if used & set(params) and n.targets[0].attr not in defining:
+                defining.append(n.targets[0].attr)
+    exempt = {'autoscale_radius'}
+
+    def struct(v):
+        if isinstance(v, (tuple, list)):
+            return '(' + ','.join(struct(x) for x in v) + ')'
+        if isinstance(v, bool) or v is None:
+            return repr(v)
+        if isinstance(v, Obj):
+            return 'obj%d' % id(v)
+        try:
+            return to_rat(v).key()
+        except Exception:
+            return repr(v)
+
+    def hash_hook(it, a, k):
+        return Rat.sym('h' + hashlib.sha1(struct(a[0]).encode()).hexdigest()[:12])
+
+    def th(it):
+        if cls.name == 'Arc':
+            a = sym_arc(it, 'A', False, True)
+        else:
+            a = it.construct('path.' + cls.name, *cpoints(len(params)))
+
+        def clone(changes):
+            b = Obj(a.cls)
+            b.attrs = dict(a.attrs)
+            b.attrs.update(changes)
+            return b
+
+        def alt(f):
+            v = a.attrs[f]
+            if isinstance(v, bool):
+                return not v
+            return Rat.csym('ALT_' + f) + to_rat(v)
+        eq = lambda x, y: bool(it.truth(it.compare_vals('eq', x, y)))
+        ne = lambda x, y: bool(it.truth(it.compare_vals('ne', x, y)))
+        out = {'same_eq': eq(a, clone({})), 'same_ne': ne(a, clone({})), 'other_type': eq(a, 5), 'defining': list(defining)}
+        out['differs'] = {f: (eq(a, clone({f: alt(f)})), ne(a, clone({f: alt(f)}))) for f in defining if f in a.attrs}
+        hv = lambda o: it.call_method(o, '__hash__')
+        h0 = hv(a)
+        out['hash_same'] = _struct_equal(h0, hv(clone({})))
+        out['hash_moves'] = {}
+        for g, v in a.attrs.items():
+            if g in defining or g.startswith('__'):
+                continue
+            if isinstance(v, dict):
+                nv = dict(v, __probe__=1)
+            elif isinstance(v, bool):
+                nv = not v
+            else:
+                try:
+                    nv = to_rat(v) + Rat.csym('ALTX_' + g.strip('_'))
+                except Exception:
+                    continue
+            out['hash_moves'][g] = not _struct_equal(h0, hv(clone({g: nv})))
+        out['hash_uses'] = {f: not _struct_equal(h0, hv(clone({f: alt(f)}))) for f in defining if f in a.attrs}
+        return out
+    opts = arc_opts(mdl) if cls.name == 'Arc' else {}
+    opts = dict(opts)
+    eh = dict(opts.get('ext_hooks', {}))
+    eh['builtins.hash'] = hash_hook
+    opts['ext_hooks'] = eh
+    pres = list(opts.get('presign', []))
+    for f in defining:
+        pres.append((Rat.csym('ALT_' + f), '-+'))
+    opts['presign'] = pres
+    opts['time_limit'] = 30
+    try:
+        paths = [p for p in explore(mdl, th, opts) if p.raised is None]
+    except Undecidable:
+        return None
+    if not paths:
+        return None
+    res = {'eq_ignores': set(), 'ne_disagrees': False, 'same_unequal': False, 'hash_same': True, 'hash_extra': set(), 'hash_uses': set(),
+           'defining': defining, 'other_type_equal': False}
+    for pth in paths:
+        v = pth.value
+        if not v['same_eq'] or v['same_ne']:
+            res['same_unequal'] = True
+        if v['other_type']:
+            res['other_type_equal'] = True
+        for f, (e_, n_) in v['differs'].items():
+            if e_ and f not in exempt:
+                res['eq_ignores'].add(f)
+            if e_ == n_:
+                res['ne_disagrees'] = True
+        if not v['hash_same']:
+            res['hash_same'] = False
+        res['hash_extra'] |= {g for g, moved in v['hash_moves'].items() if moved}
+        res['hash_uses'] |= {f for f, moved in v['hash_uses'].items() if moved}
+    return res
+
+
 def _check_eq_hash(ctx, mdl, cls):
     q = cls.qualname
     h, e, ne = cls.methods.get('__hash__'), cls.methods.get('__eq__'), cls.methods.get('__ne__')
     if h is None or e is None:
         ctx.record('R16.7', q, 'missing __eq__/__hash__', False, detail='class defines __eq__=%s __hash__=%s' % (bool(e), bool(h)), where=where(cls.methods.get('__init__')))
         return
+    if cls.name != 'Path':
+        sem = _eq_hash_semantic(ctx, mdl, cls)
+        if sem is not None:
+            # decided by probing (whatever helpers the methods are written with); same instance labels as the syntactic rule
+            ctx.record('R16.7', q, '__hash__ depends only on fields', sem['hash_same'],
+                       detail='' if sem['hash_same'] else 'two objects with identical fields hash differently', where=where(h))
+            extra = sorted(sem['hash_extra'])
+            ctx.record('R16.7', q, 'hash_fields-eq_fields={%s}' % ','.join(extra), not extra,
+                       detail='' if not extra else '__hash__ moves with %s which __eq__ does not compare: equal objects can hash differently' % extra,
+                       where=where(h), sample={'hash_fields': sorted(sem['hash_uses']), 'eq_fields': sorted(set(sem['defining']) - sem['eq_ignores'])})
+            missing = sorted(sem['eq_ignores'])
+            ctx.record('R16.7', q, 'defining_fields-eq_fields={%s}' % ','.join(missing), not missing,
+                       detail='' if not missing else '__eq__ ignores constructor-defining field(s) %s' % missing, where=where(e),
+                       sample={'defining': sem['defining']})
+            if cls.name == 'Arc':
+                missing_h = sorted(set(sem['defining']) - sem['hash_uses'] - {'autoscale_radius'})
+                ctx.record('R16.7', q, 'defining_fields-hash_fields={%s}' % ','.join(missing_h), not missing_h,
+                           detail='' if not missing_h else 'hash(self) keys the length cache but ignores %s' % missing_h, where=where(h))
+            ok_fw = not sem['same_unequal'] and not sem['other_type_equal']
+            ctx.record('R16.7', q, 'eq compares field-wise', ok_fw,
+                       detail='' if ok_fw else 'objects with identical fields compare unequal, or a segment equals a number', where=where(e))
+            if ne is not None:
+                ctx.record('R16.7', q, '__ne__ negates __eq__', not sem['ne_disagrees'],
+                           detail='' if not sem['ne_disagrees'] else '== and != give the same answer for some pair', where=where(ne))
+            return
     methods = set(cls.methods) | set(cls.getters)
     hf = _self_fields(h.node) - methods
     ef = _self_fields(e.node) - methods
